@@ -20,7 +20,7 @@ from ..seams.flow import SimSource, ProbeCall, ProbeRun, ProbeFC
 PROPERTY = "C18"
 LEVEL = "fault_enumeration"
 SWEEP = True
-N_RUNS = {"quick": 160000, "thorough": 2500000}
+N_RUNS = {"quick": 300000, "thorough": 1000000}
 RULE = ("each run draws a pipeline (Sequence or Source form, 1-2 Cache elements, 0-2 probe "
         "elements before/between/after, optional fill/compute accumulator upstream, plain / "
         "sub-directory / formatted cache file name, pickle protocol 0-5) and a history of 1-5 "
@@ -42,10 +42,10 @@ ASSUMPTIONS = [
     "no cache (both satisfy the statement)",
     "process crash (torn unflushed bytes) is explored but reported only under beyond_quantifier",
 ]
-FAULT_KINDS = ["consumer-stop-close", "consumer-stop-drop", "raise-downstream",
+FAULT_KINDS = ["read-error-EIO", "consumer-stop-close", "consumer-stop-drop", "raise-downstream",
                "raise-upstream-source", "raise-upstream-element", "drop_cache",
                "recompute", "process-crash"]
-EXPECTED_PROBES = ["replay-run", "replay-after-interrupted-run", "stop-at-exact-length",
+EXPECTED_PROBES = ["read-error-surfaced-loudly", "replay-run", "replay-after-interrupted-run", "stop-at-exact-length",
                    "two-caches-inner-replay", "hoisted-to-source", "empty-flow-cached",
                    "interrupted-recompute-over-existing-cache", "accumulator-upstream-of-replay"]
 
@@ -121,6 +121,9 @@ def gen_scenario(tape):
         if op.kind in ("complete", "stop") and tape.chance(1, 12, "process-crash"):
             # beyond the quantifier: the process dies at the j-th disk operation
             op.crash = (1 + tape.draw(12, "crash-at"), tape.draw(4, "tear"))
+        op.eio = None
+        if op.kind != "drop" and not op.crash and tape.chance(1, 10, "eio"):
+            op.eio = 1 + tape.draw(8, "eio-at", sweep=True)
         sc.ops.append(op)
     return sc
 
@@ -321,6 +324,8 @@ def run(tape):
                 desc += " recompute=%s" % op.recompute
             if op.hoist != "none":
                 desc += " hoist=%s" % op.hoist
+            if op.eio:
+                desc += " EIO at read %d" % op.eio
             if op.crash:
                 desc += " PROCESS-CRASH at disk op %d tear=%d" % op.crash
             res.say(desc)
@@ -330,7 +335,14 @@ def run(tape):
                 fs.crash_at = op.crash[0]
                 tear = op.crash[1]
                 fs.crash_tear = lambda path, n, tear=tear: (0, n, n // 2, max(n - 1, 0))[tear]
+            eio_before = fs.fired.get("EIO", 0)
+            if op.eio:
+                fs.eio_at = op.eio
             obs = execute_run(sc, op, log, r, res, fs)
+            fs.eio_at = None
+            obs["eio"] = fs.fired.get("EIO", 0) > eio_before
+            if obs["eio"]:
+                res.fault("read-error-EIO")
             if op.crash:
                 # beyond the quantifier: never judged; afterwards anything that is
                 # not wrong data is acceptable, so the model forgets what it knew.
@@ -370,6 +382,8 @@ def _plain_op(sc):
     op.target = None
     op.recompute = [False] * sc.ncaches
     op.hoist = "none"
+    op.eio = None
+    op.crash = None
     return op
 
 
@@ -444,6 +458,29 @@ def judge(sc, op, r, obs, allowed, res, fs, ops_before, last_interrupt, interrup
             continue
         matching.append((combo, exp))
     obs["model_complete"] = all(e["complete"] for e in exps)
+    if obs.get("eio") and obs["exc"] == "OSError":
+        # injected read error, relaxed oracle: the run may fail loudly; what it
+        # delivered before must be a prefix of what some allowed state predicts;
+        # caches it was dumping are interrupted (old complete cache or nothing).
+        obs["model_complete"] = False
+        ok = [(combo, e) for combo, e in zip(combos, exps)
+              if obs["out"] == e["out"][:len(obs["out"])]]
+        if not ok:
+            res.viol("C18:Cache:read-error:wrong-data-before-failing",
+                     "run %d failed with the injected EIO after yielding %s, which no allowed "
+                     "state explains" % (r, _short(obs["out"])))
+            return
+        res.probe("read-error-surfaced-loudly")
+        res.nontrivial = True
+        new_allowed = [[] for _ in range(sc.ncaches)]
+        for combo, exp in ok:
+            for c in range(sc.ncaches):
+                _add(new_allowed[c], combo[c])
+                if c in exp["dumped"]:
+                    _add(new_allowed[c], None)
+        for c in range(sc.ncaches):
+            allowed[c] = new_allowed[c]
+        return
     if matching:
         # probes
         for combo, exp in matching:
@@ -511,6 +548,11 @@ def judge(sc, op, r, obs, allowed, res, fs, ops_before, last_interrupt, interrup
         return
     if obs["exc"] not in (None, "Boom") or (obs["exc"] == "Boom" and not any(e["exc"] for e in exps)):
         res.viol("C18:Cache:run:unexpected-exception:%s" % obs["exc"], detail)
+        return
+    if obs.get("eio"):
+        res.viol("C18:Cache:read-error:silent-wrong-flow", detail + " -- a read error (EIO) was "
+                 "injected while the cache was loaded; the run ended normally with a flow that "
+                 "is not the stored one")
         return
     stamps = set(_stamps(obs["out"]))
     no_pulls = pl is not None and pl.src.attempts == 0
